@@ -174,7 +174,12 @@ def load (t : Tree) : Loaded :=
 inductive Disk
   | absent
   | holds (t : Tree)
+  | other (tag : Nat)          -- some existing file that is not an HDF5 tree (text, empty stub, truncated file, …)
 deriving DecidableEq, Repr, Inhabited
+
+def Disk.exists : Disk → Bool
+  | .absent => false
+  | _ => true
 
 structure SaveResult where
   disk : Disk
@@ -183,9 +188,8 @@ deriving DecidableEq, Repr
 
 /-- `save_h5` as repaired: refuse before writing; write everything to a temporary file; replace on success only -/
 def save (dest : Disk) (w : Workspace) (overwrite : Bool) : SaveResult :=
-  match dest, overwrite with
-  | .holds t, false => { disk := .holds t, raised := true }
-  | _, _ =>
+  if dest.exists ∧ overwrite = false then { disk := dest, raised := true }     -- os.path.exists, whatever the file is
+  else
     match writeAll w with
     | some t => { disk := .holds t, raised := false }
     | Option.none => { disk := dest, raised := true }
@@ -199,9 +203,8 @@ def writePrefix : Workspace → Tree
     | Option.none => []      -- (a partially written group is ignored here: already enough to show the defect)
 
 def savePinned (dest : Disk) (w : Workspace) (overwrite : Bool) : SaveResult :=
-  match dest, overwrite with
-  | .holds t, false => { disk := .holds t, raised := true }
-  | _, _ =>
+  if dest.exists ∧ overwrite = false then { disk := dest, raised := true }
+  else
     match writeAll w with
     | some t => { disk := .holds t, raised := false }
     | Option.none => { disk := .holds (writePrefix w), raised := true }
